@@ -20,7 +20,8 @@ EXPLANATION = (
     "(sizing(), pack() results); (4) Text: rows(), pack() and render() obtain the layout from the same get_line_translation(maxcol) and apply_text_layout appends exactly one output line "
     "per layout line on every path, so reported rows = rendered rows for Text by construction; (5) pad-to-fill direction: wherever a container brings a canvas to the requested size, "
     "the amount handed to pad_trim_* is (target - actual) with `actual` the cols()/rows() of the very canvas being padded; (6) POSBOUND: every comparison of a 0-based screen "
-    "coordinate (cursor element, col/row parameter) with an extent (size element, rows(), cols()) is half-open, so a cursor equal to the extent is outside; (7) FRESHLIST: padding/"
+    "coordinate (cursor element, col/row parameter) with an extent (size element, rows(), cols()) is half-open, so a cursor equal to the extent is outside; (8) the weighted shares of Columns / Pile are taken with running remainders in ascending order when clamped (shared with C19.2) - otherwise the widths sum to more than the "
+    "requested columns and the canvas is too wide; (7) FRESHLIST: padding/"
     "trimming never edits in place a shard or cview list shared with the wrapped (possibly cached) canvas - otherwise a re-render of the unchanged child has a different size."
 )
 NOT_DECIDED = (
@@ -201,6 +202,14 @@ def rule_pad_to_fill(ctx: Ctx) -> RuleResult:
     return rr
 
 
+def _apportion(ctx: Ctx):
+    from . import c19
+
+    r = c19.rule_apportion(ctx)
+    r.clause = "C01.8"
+    return r
+
+
 def run(ctx: Ctx):
     p = ctx.p
     mods = modules(p)
@@ -211,6 +220,7 @@ def run(ctx: Ctx):
         rule_pad_to_fill(ctx),
         posbound.run_posbound(p, "C01.6", mods, floor=8),
         fresh.run_fresh(p, "C01.7", ["urwid.canvas"], floor=30),
+        _apportion(ctx),
     ]
 
 
